@@ -26,12 +26,17 @@ Section Sort.
   Variable A : Type.
   Definition entry := (str * A)%type.
 
-  Fixpoint insert_by_key (x : entry) (l : list entry) : list entry :=
+  (* insertion sort by key under an arbitrary comparison [le] of keys *)
+  Fixpoint insert_with (le : str -> str -> bool) (x : entry) (l : list entry) : list entry :=
     match l with
     | [] => [x]
-    | y :: r => if str_le (fst x) (fst y) then x :: l else y :: insert_by_key x r
+    | y :: r => if le (fst x) (fst y) then x :: l else y :: insert_with le x r
     end.
-  Definition sort_by_key (l : list entry) : list entry := fold_right insert_by_key [] l.
+  Definition sort_with (le : str -> str -> bool) (l : list entry) : list entry := fold_right (insert_with le) [] l.
+
+  (* what the generators do: sort.Strings, i.e. the exact name in byte order *)
+  Definition insert_by_key : entry -> list entry -> list entry := insert_with str_le.
+  Definition sort_by_key : list entry -> list entry := sort_with str_le.
 
   (* a Go map written in sequence: a later write to the same key replaces the earlier one *)
   Fixpoint remove_key (k : str) (l : list entry) : list entry :=
@@ -39,7 +44,13 @@ Section Sort.
   Definition map_put (m : list entry) (x : entry) : list entry := x :: remove_key (fst x) m.
   Definition map_of (writes : list entry) : list entry := fold_left map_put writes [].
 End Sort.
+Arguments insert_with {A}. Arguments sort_with {A}.
 Arguments insert_by_key {A}. Arguments sort_by_key {A}. Arguments remove_key {A}. Arguments map_put {A}. Arguments map_of {A}.
+
+(* a coarser key: compare names without regard to case (strings.ToLower(a) < strings.ToLower(b) as the
+   "less" of a sort) — total and transitive, but NOT antisymmetric: "X-Request-Id" and "X-Request-ID"
+   are different names that compare equal, so a sort under it keeps them in arrival order *)
+Definition str_le_ci (a b : str) : bool := str_le (lower_str a) (lower_str b).
 
 (* annotations.CombineHeaders: service headers, then method headers (overriding), names with ""
    skipped, iterate the map in the order [pi] the runtime happens to choose, sort by name *)
